@@ -103,19 +103,21 @@ def run(prop, tier):
     tag = f"{prop}-{tier}"
     vlib.clear_replays(prop, tier)
     cases, gstats = p_val.generate(fams, tag)
+    nb = p_val.builders(cases)          # the same types built with the client's builder API (b.*)
+    cases += nb
     # JSON documents only
     for c in cases:
         c["probes"] = [p for p in c["probes"] if is_json(p["v"])]
     reqs = []
     for i, c in enumerate(cases):
-        c["_src"] = vlib.render_program(c["env"], c["ty"])
-        reqs.append(vlib.compile_req(i, [("entry.ts", c["_src"])]))
+        c["_src"] = c.get("_src") or vlib.render_program(c["env"], c["ty"])
+        reqs.append(vlib.build_req(i, c["_bexpr"]) if c.get("via") == "b" else vlib.compile_req(i, [("entry.ts", c["_src"])]))
     comp = vlib.compile_all(reqs)
     jobs = []
     for i, (c, r) in enumerate(zip(cases, comp)):
         c["_comp"] = r
         if r["outcome"] == "code":
-            jobs.append({"id": i, "code": r["code"], "root": "T", "probes": [p["v"] for p in c["probes"]],
+            jobs.append({"id": i, "code": r["code"], "build": r.get("build"), "root": "T", "probes": [p["v"] for p in c["probes"]],
                          "ops": ["validate", "schema"],
                          "ctxcfgs": [{k: v for k, v in cfg.items() if k != "name"} for cfg in CTXCFGS]})
     obs = vlib.run_driver(jobs, tag)
